@@ -157,6 +157,11 @@ Proof.
   - apply mono_bind; [apply mono_copy_value|intros c]. mono_tac.
 Qed.
 Lemma mono_get_mapped v : mono (get_mapped v). Proof. unfold get_mapped. mono_tac. Qed.
+Lemma mono_check_passed : mono check_passed.
+Proof.
+  intros st st' r H. unfold check_passed in H.
+  destruct (forallb (unmapped (vmap st)) (passed st)); inversion H; subst; apply le_refl.
+Qed.
 Lemma mono_clone_input allow i : mono (clone_input allow i).
 Proof. unfold clone_input. destruct i; mono_tac. Qed.
 Lemma mono_attr_name_of a : mono (attr_name_of a).
@@ -199,6 +204,7 @@ Section Rec.
     apply mono_bind; [apply mono_mapM; intros; apply mono_clone_or_get_value|intros inits].
     apply mono_bind; [apply mono_mapM; intros; apply mono_clone_node|intros nodes].
     apply mono_bind; [apply mono_mapM; intros; apply mono_get_mapped|intros outs].
+    apply mono_bind; [apply mono_check_passed|intros u0].
     apply mono_bind; [apply mono_mapM; intros; apply mono_value_name_of|intros keys].
     apply mono_bind; [apply mono_clone_dict|intros ops].
     apply mono_bind; [apply mono_clone_dict|intros mp].
